@@ -493,6 +493,22 @@ func runC14(r *fw.Run) {
 		}}
 		in.Run(nil)
 		r.Expect("C14-R3", "seed calls", n, 2)
+		// the seeding loop covers every (data source, coordinate) pair the plan recorded
+		fw.EachCall([]*fw.FuncInfo{fi}, func(_ *fw.FuncInfo, c *ast.CallExpr, stack []ast.Node) {
+			if !fw.CallIs(info, c, "resolve", "FieldAuthorization.seedAllow") && !fw.CallIs(info, c, "resolve", "FieldAuthorization.seedDeny") {
+				return
+			}
+			var loop *ast.RangeStmt
+			for i := len(stack) - 1; i >= 0; i-- {
+				if rs, ok := stack[i].(*ast.RangeStmt); ok {
+					loop = rs
+					break
+				}
+			}
+			all := loop != nil && (fw.IsFieldSel(info, loop.X, "resolve", "GraphQLResponseInfo", "AuthorizationCoordinates") || identFromField(fi, loop.X, "resolve", "GraphQLResponseInfo", "AuthorizationCoordinates"))
+			r.Check(all, "C14-R3", "FieldAuthorization.authorizePreFetch/seeds-every-pair:"+fw.Callee(info, c).Name(), p.Pos(c.Pos()), "decisions are seeded in a loop over all of response.Info.AuthorizationCoordinates (one entry per data source × coordinate)",
+				"the seeding loop does not range over the full AuthorizationCoordinates list (e.g. over a de-duplicated subset): a coordinate served by a second data source has no seeded decision and a coordinate without a decision is treated as authorized")
+		})
 		// the seeded decision for an allowed coordinate is seedAllow, for a denied one seedDeny
 		polarity(r, fi)
 	}
@@ -655,6 +671,46 @@ func collectorAgreement(r *fw.Run) {
 		r.Check(cases[kind], "C14-R3", fi.Name()+"/descends:"+kind, fi.Pos(), "collectNode descends into *resolve."+kind+" like the renderer",
 			"the coordinate collector does not descend into "+kind+" nodes: protected fields below it get no up-front decision, and a coordinate without a seeded decision is treated as authorized")
 	}
+	// the descent is unconditional, as in the renderer (walkArray walks Item whatever its kind, walkFields every field value)
+	fw.WalkAll(fi.Decl.Body, func(n ast.Node) bool {
+		ts, ok := n.(*ast.TypeSwitchStmt)
+		if !ok {
+			return true
+		}
+		for _, cl := range ts.Body.List {
+			cc := cl.(*ast.CaseClause)
+			if len(cc.List) != 1 {
+				continue
+			}
+			kind := fw.RecvName(info.TypeOf(cc.List[0]))
+			switch kind {
+			case "Array":
+				end := armEndState(fi, cc.Body, func(c *ast.CallExpr) bool {
+					return fw.Callee(info, c) == fi.Obj && len(c.Args) > 0 && fw.IsFieldSel(info, c.Args[0], "resolve", "Array", "Item")
+				})
+				r.Check(end, "C14-R3", fi.Name()+"/array-item-unconditional", p.Pos(cc.Pos()), "the Array arm calls collectNode(n.Item) on every path that does not return on n == nil",
+					"the collector descends into list items only conditionally (e.g. only for object items): protected fields below a list of lists get no up-front decision and are rendered unchecked")
+			case "Object":
+				var body []ast.Stmt
+				fw.WalkAll(cc, func(m ast.Node) bool {
+					if rs, ok := m.(*ast.RangeStmt); ok && body == nil && mentionsField(info, rs.X, "resolve", "Object", "Fields") {
+						body = rs.Body.List
+					}
+					return true
+				})
+				ok := body != nil && armEndState(fi, body, func(c *ast.CallExpr) bool {
+					if fw.Callee(info, c) != fi.Obj || len(c.Args) == 0 {
+						return false
+					}
+					v, _ := fw.Field(info, c.Args[0])
+					return v != nil && v.Name() == "Value"
+				})
+				r.Check(ok, "C14-R3", fi.Name()+"/field-value-unconditional", p.Pos(cc.Pos()), "the Object arm calls collectNode(field.Value) for every field, unconditionally",
+					"the collector skips the value of some fields: protected fields nested below them get no up-front decision")
+			}
+		}
+		return false
+	})
 	// the collector stage is part of processFlatFetchTree, which every plan arm runs
 	var proc *fw.FuncInfo
 	for _, f := range p.Funcs("postprocess") {
@@ -686,6 +742,36 @@ func collectorAgreement(r *fw.Run) {
 		})
 	}
 	r.Expect("C14-R3", "processFlatFetchTree calls in Process (one per plan kind)", n, 3)
+}
+
+// armEndState: every path through the statement list that reaches its end (or continues) has
+// executed a call satisfying pred; paths that `return` under an `x == nil` test are exempt.
+func armEndState(fi *fw.FuncInfo, body []ast.Stmt, pred func(*ast.CallExpr) bool) bool {
+	info := fi.Info()
+	ok := true
+	in := fw.NewInterp(fi)
+	in.H = fw.Hooks{
+		Node: func(n ast.Node, st *fw.State) {
+			if c, isC := n.(*ast.CallExpr); isC && pred(c) {
+				st.Set("descended")
+			}
+		},
+		Cond: func(e ast.Expr, branch bool, st *fw.State) {
+			if _, eq, isNil := fw.NilCheck(info, e); isNil && eq == branch {
+				st.Set("nil-node")
+			}
+		},
+		Exit: func(ret *ast.ReturnStmt, lit *ast.FuncLit, st *fw.State) {
+			if ret != nil && !st.Must("nil-node") && !st.Must("descended") {
+				ok = false
+			}
+		},
+	}
+	end := in.RunStmts(body, nil)
+	if end != nil && !end.Must("descended") {
+		ok = false
+	}
+	return ok
 }
 
 // protectedBitProvenance (R4): every composite literal in package plan that sets a
